@@ -213,6 +213,9 @@ pub fn replay(scenario: &str, path: &[usize]) -> Option<RunResult> {
     if scenario == super::c03x::OverflowPerType.name() {
         return Some(super::c03x::OverflowPerType.run(path[0], true));
     }
+    if scenario == (super::c03x::Capacities { id: "C13" }).name() {
+        return Some(super::c03x::Capacities { id: "C13" }.run(path[0], true));
+    }
     if scenario == AppIinProduct.name() {
         return Some(AppIinProduct.run(path[0], true));
     }
@@ -225,10 +228,11 @@ pub fn check(tier: &str) -> i32 {
         c.explore(&s);
     }
     c.cases(&super::c03x::OverflowPerType);
+    c.cases(&super::c03x::Capacities { id: "C13" });
     c.cases(&AppIinProduct);
     c.finish(
         "model_checking",
-        "(application indications) all 16 combinations of the application's need-time / local-control / device-trouble / config-corrupt answers x 4 kinds of response (null unsolicited, non-READ answer, READ answer, data unsolicited): each bit mirrors the answer; (overflow per type) every ordered pair of the 8 event types (one overflowed, the other holding exactly its limit, one less, or configured to keep no events at all): the overflow bit is reported with the discard, stays after the confirmation exactly if a type is still at capacity, and clears once that type is confirmed too; (histories) every event history over the listed alphabet (C03's alphabet plus broadcasts of the three confirm modes, WRITE of the restart bit to 0 and 1, reconnect, flips of the application's need-time / config-corrupt answers) up to the listed depth, executed on the real OutstationTask; for every first transmission of a response the oracle recomputes IIN1 and IIN2.3/2.5 from the event ledger and the indication model and compares all ten bits; non-trivial = at least two responses were checked; distinct = distinct observation trace",
+        "(application indications) all 16 combinations of the application's need-time / local-control / device-trouble / config-corrupt answers x 4 kinds of response (null unsolicited, non-READ answer, READ answer, data unsolicited): each bit mirrors the answer; (limits differ per type) 16 assignments of the limits 1..8 to the 8 types and 8 with one type switched off, every type filled exactly to its limit: nothing is displaced, everything is delivered, and after the confirmation no class bit and no overflow bit remains; (overflow per type) every ordered pair of the 8 event types (one overflowed, the other holding exactly its limit, one less, or configured to keep no events at all): the overflow bit is reported with the discard, stays after the confirmation exactly if a type is still at capacity, and clears once that type is confirmed too; (histories) every event history over the listed alphabet (C03's alphabet plus broadcasts of the three confirm modes, WRITE of the restart bit to 0 and 1, reconnect, flips of the application's need-time / config-corrupt answers) up to the listed depth, executed on the real OutstationTask; for every first transmission of a response the oracle recomputes IIN1 and IIN2.3/2.5 from the event ledger and the indication model and compares all ten bits; non-trivial = at least two responses were checked; distinct = distinct observation trace",
         &[
             "byte-identical re-sends of the response awaiting confirmation carry the bits of the moment they were built and are exempt",
             "updates are placed at quiescent points (H6 lock-point placements are not built)",
